@@ -276,6 +276,21 @@ def run(chk, repo):
     chk.ob('C11.f', 'in-memory loader sorts records', dg.where, '.sort_records()' in unparse(dg.node),
            'dump_gtf does not sort records', key=dg.qual + '::sort', fn=dg.qual)
 
+    # ------------------------------------------------------------------ g
+    chk.rule('C11.g', 'strand mirror: the - strand branch is the mirror image ([0]<->[-1], start<->end-1) of the + strand branch', 1)
+    ce = repo.func('gtf.TranscriptAnnotationModel:TranscriptAnnotationModel.get_cds_end_index')
+    chk.uses(ce)
+    br = [n for n in walk_no_nested(ce.node) if isinstance(n, ast.If) and unparse(n.test) == 'self.transcript.strand == 1']
+    ok = False
+    detail = 'strand branch not found'
+    if len(br) == 1 and len(br[0].body) == 1 and len(br[0].orelse) == 1 and isinstance(br[0].body[0], ast.Assign) and isinstance(br[0].orelse[0], ast.Assign):
+        plus, minus = unparse(br[0].body[0].value), unparse(br[0].orelse[0].value)
+        ok = mirror(plus) == minus
+        detail = f"+ strand '{plus}', - strand '{minus}', mirror of + is '{mirror(plus)}'"
+    chk.ob('C11.g', 'get_cds_end_index: 3\'UTR piece adjacent to the CDS = first piece on +, last piece on -', ce.where, ok,
+           f"{detail}: features are sorted by genomic coordinate, so the piece next to the CDS on the - strand is the LAST one; otherwise the ORF end lands inside the 3'UTR",
+           key=ce.qual + '::strand-mirror', fn=ce.qual)
+
 
 def cache_typestate(chk, repo, rid):
     """R-ORDER + R-LOCKSTEP on the pointer-dict caches (shared by C11.d and C15.c)."""
@@ -322,3 +337,10 @@ def cache_typestate(chk, repo, rid):
         chk.ob(rid, f"{ci.name}: no class-level cache attribute", f"{ci.module.relpath}:{ci.node.lineno}", not shared,
                f"class-level cache state {shared} is shared by every dictionary instance", key=f"{cq}::class-level-cache")
 
+
+def mirror(text: str) -> str:
+    """strand mirror of an expression over genomically sorted feature lists:
+    first <-> last element, transcript-oriented start (.start) <-> (.end - 1)."""
+    t = text.replace('[0]', '[@F]').replace('[-1]', '[0]').replace('[@F]', '[-1]')
+    t = t.replace('.location.end - 1', '.location.@S').replace('.location.start', '.location.end - 1').replace('.location.@S', '.location.start')
+    return t
